@@ -265,6 +265,11 @@ class PolyVal:
     def kvc_len(self):
         return SInt(z3.Int(current().fresh('polylen')))
 
+    def kvc_getitem(self, interp, i):
+        # only the common-factor removal of RationalPolynomial.__mul__ looks inside a polynomial: that branch is an
+        # *assumed contract* (bounded stand-in), the path ends here
+        raise PathEnd('assumed: common-factor removal branch of RationalPolynomial.__mul__')
+
     def kvc_truth(self, interp):
         return mkbool(self.den != 0)
 
